@@ -400,53 +400,7 @@ func (c *Ctx) c17Fallback() {
 		return
 	}
 	appid, code, vendor := f.Params[1], f.Params[2], f.Params[3]
-	// lookups on avpname / avpcode
-	nLook := 0
-	var phis = map[*ssa.Phi]bool{}
-	flow.Instrs(f, func(in ssa.Instruction) {
-		lk, ok := in.(*ssa.Lookup)
-		if !ok || !lk.CommaOk {
-			return
-		}
-		_, fld, _, ok := flow.FieldOf(lk.X)
-		if !ok || (fld != "avpname" && fld != "avpcode") {
-			return
-		}
-		nLook++
-		key := fmt.Sprintf("%s:lookup-%s#%d", fname(f), fld, nLook)
-		// key struct: load of alloc with field stores
-		fields := structLitFields(lk.Index)
-		if fields == nil {
-			r.Undecided("R3", key, c.pos(lk), "cannot read the lookup key's fields")
-			return
-		}
-		ph, isPhi := fields["appID"].(*ssa.Phi)
-		if !isPhi {
-			r.Fail("R3", key, c.pos(lk), "the index lookup's application id is not the loop-carried fallback value (app → parent → base)")
-			return
-		}
-		phis[ph] = true
-		if flow.Peel(fields["vendorID"]) != ssa.Value(vendor) {
-			r.Fail("R3", key, c.pos(lk), "the index lookup does not use the caller's vendor id")
-			return
-		}
-		var cf ssa.Value
-		if fld == "avpname" {
-			cf = fields["name"]
-		} else {
-			cf = fields["code"]
-		}
-		okCode := false
-		if ex, isEx := flow.Peel(cf).(*ssa.Extract); isEx {
-			if ta, isTA := ex.Tuple.(*ssa.TypeAssert); isTA && ta.X == ssa.Value(code) {
-				okCode = true
-			}
-		}
-		r.Check(okCode, "R3", key, c.pos(lk), "keyed by (fallback app id, caller's code/name, caller's vendor id)", "the index lookup is not keyed by the caller's code/name")
-	})
-	if nLook == 0 {
-		r.Undecided("R3", fname(f)+":lookups", c.fpos(f), "no comma-ok lookups on the AVP indexes")
-	}
+	phis := c.dictLookupKeys("R3")
 	for ph := range phis {
 		key := fname(f) + ":appid-sources"
 		srcs := map[string]bool{}
@@ -604,6 +558,66 @@ func (c *Ctx) c17Fallback() {
 		}
 		r.Check(good, "R3", key, c.fpos(fc), "second lookup with application 0 on the miss edge of the first, same code", why)
 	}
+}
+
+// dictLookupKeys checks every comma-ok lookup of FindAVPWithVendor on the AVP indexes: keyed by
+// (loop-carried application id, the caller's code/name, the caller's vendor id). Shared clause of
+// C17 (R3) and C01 (R6). Returns the application-id phis found.
+func (c *Ctx) dictLookupKeys(rule string) map[*ssa.Phi]bool {
+	r := c.R
+	f := c.P.Method("diam/dict", "Parser", "FindAVPWithVendor")
+	if f == nil {
+		return nil
+	}
+	_, code, vendor := f.Params[1], f.Params[2], f.Params[3]
+	// lookups on avpname / avpcode
+	nLook := 0
+	phis := map[*ssa.Phi]bool{}
+	flow.Instrs(f, func(in ssa.Instruction) {
+		lk, ok := in.(*ssa.Lookup)
+		if !ok || !lk.CommaOk {
+			return
+		}
+		_, fld, _, ok := flow.FieldOf(lk.X)
+		if !ok || (fld != "avpname" && fld != "avpcode") {
+			return
+		}
+		nLook++
+		key := fmt.Sprintf("%s:lookup-%s#%d", fname(f), fld, nLook)
+		// key struct: load of alloc with field stores
+		fields := structLitFields(lk.Index)
+		if fields == nil {
+			r.Undecided(rule, key, c.pos(lk), "cannot read the lookup key's fields")
+			return
+		}
+		ph, isPhi := fields["appID"].(*ssa.Phi)
+		if !isPhi {
+			r.Fail(rule, key, c.pos(lk), "the index lookup's application id is not the loop-carried fallback value (app → parent → base)")
+			return
+		}
+		phis[ph] = true
+		if flow.Peel(fields["vendorID"]) != ssa.Value(vendor) {
+			r.Fail(rule, key, c.pos(lk), "the index lookup does not use the caller's vendor id")
+			return
+		}
+		var cf ssa.Value
+		if fld == "avpname" {
+			cf = fields["name"]
+		} else {
+			cf = fields["code"]
+		}
+		okCode := false
+		if ex, isEx := flow.Peel(cf).(*ssa.Extract); isEx {
+			if ta, isTA := ex.Tuple.(*ssa.TypeAssert); isTA && ta.X == ssa.Value(code) {
+				okCode = true
+			}
+		}
+		r.Check(okCode, rule, key, c.pos(lk), "keyed by (fallback app id, caller's code/name, caller's vendor id)", "the index lookup is not keyed by the caller's code/name")
+	})
+	if nLook == 0 {
+		r.Undecided(rule, fname(f)+":lookups", c.fpos(f), "no comma-ok lookups on the AVP indexes")
+	}
+	return phis
 }
 
 func isZeroConst(v ssa.Value) bool {
